@@ -1261,7 +1261,7 @@ func traceInvariants(c hCase, run hRun) string {
 		case "rcpt":
 			if last.Class() == 2 {
 				rcptOK++
-				if c.Cfg.MaxRecipients > 0 && rcptOK > c.Cfg.MaxRecipients {
+				if c.Cfg.MaxRecipients > 0 && !unknown && rcptOK > c.Cfg.MaxRecipients {
 					return fmt.Sprintf("%d recipients accepted with MaxRecipients=%d", rcptOK, c.Cfg.MaxRecipients)
 				}
 			}
